@@ -124,6 +124,42 @@ Fixpoint check_trace (W : world) (tr : list obs) (i : N) : option (N * diff) :=
       | None => check_trace W' tl (i + 1)
       end
   end.
+(* all disagreements, re-synchronising the model on the implementation's observation after each one, so that one
+   diverging instruction does not hide the rest of the history *)
+Definition rd_tag (i : rd_ix) : N :=
+  match i with
+  | RInitializeProgram => 1 | RMigrate => 2 | RSetAdmin _ => 3 | RConfigureProgram _ => 4 | RInitializeJournal => 5
+  | RInitializeDistribution => 6 | RConfigureDebt _ _ _ => 7 | RFinalizeDebt => 8 | RConfigureRewards _ _ => 9
+  | RFinalizeRewards => 10 | RDistributeRewards _ _ _ => 11 | RInitializeContributor _ => 12 | RSetRewardsManager _ => 13
+  | RConfigureContributor _ => 14 | RVerifyRoot _ _ => 15 | RInitializeDeposit _ => 16 | RPayDebt _ _ => 17
+  | REnableWriteOff => 18 | RWriteOff _ _ => 19 | RInitializeSwapDestination => 20 | RSweep => 21 | RWithdrawSol _ => 22 end.
+Definition pp_tag (i : pp_ix) : N :=
+  match i with PInitializeProgram => 31 | PSetAdmin _ => 32 | PConfigureProgram _ => 33 | PRequestAccess _ => 34
+             | PGrantAccess => 35 | PDenyAccess => 36 end.
+Definition sw_tag (i : sw_ix) : N := match i with SInitializeFillsRegistry => 41 | SBuySol _ _ => 42 | SDequeueFills _ => 43 end.
+Fixpoint ix_tag (d : ixdata) : N :=
+  match d with
+  | IxRd i => rd_tag i | IxPassport i => pp_tag i | IxSwap i => sw_tag i
+  | IxSysTransfer _ => 51 | IxSysCreate _ _ _ => 52 | IxTokTransfer _ => 53 | IxTokTransferChecked _ _ => 54 | IxTokBurn _ => 55
+  | IxRogueCpi inner => 1000 + ix_tag inner | IxRogueBuy _ _ => 61 | IxNoop => 0 end.
+Definition op_tags (o : op) : list N :=
+  match o with
+  | OTx t => map (fun i => ix_tag (i_data i)) (tx_ixs t)
+  | OSetClock _ => [71] | OAirdrop _ _ => [72] | OForge _ _ => [73] | OMintTo _ _ => [74] | OCreateAta _ _ => [75] end.
+Fixpoint resync (W : world) (post : list (key * acct)) : world :=
+  match post with [] => W | (k, a) :: tl => resync (put W k a) tl end.
+Fixpoint check_trace_all (W : world) (tr : list obs) (i : N) : list (N * list N * diff) :=
+  match tr with
+  | [] => []
+  | (o, ok, post) :: tl =>
+      let '(W', ok') := exec_op W o in
+      if negb (bool_eqb ok ok') then (i, op_tags o, DiffOutcome ok') :: check_trace_all (resync W post) tl (i + 1) else
+      match first_acct_diff W' post with
+      | Some d => (i, op_tags o, d) :: check_trace_all (resync W' post) tl (i + 1)
+      | None => check_trace_all W' tl (i + 1)
+      end
+  end.
+Definition corr_all (tr : list robs) : list (N * list N * diff) := check_trace_all world0 (expand [] tr) 0.
 Definition corr_obs (tr : list obs) : option (N * diff) := check_trace world0 tr 0.
 Definition corr_trace (tr : list robs) : option (N * diff) := corr_obs (expand [] tr).
 (* model run alone (for debugging and for monitors that need the model's states) *)
